@@ -3,13 +3,10 @@ use std::{
     cmp::{Ordering, Reverse},
     collections::{BinaryHeap, HashMap, HashSet},
     hash::Hash,
-    sync::OnceLock,
 };
 
 use js_int::Int;
-use ruma_common::{
-    room_version_rules::AuthorizationRules, EventId, MilliSecondsSinceUnixEpoch, OwnedUserId,
-};
+use ruma_common::{room_version_rules::AuthorizationRules, EventId, MilliSecondsSinceUnixEpoch};
 use ruma_events::{room::member::MembershipState, StateEventType, TimelineEventType};
 use tracing::{debug, info, instrument, trace, warn};
 
@@ -239,12 +236,8 @@ fn reverse_topological_power_sort<E: Event>(
 
     // This is used in the `key_fn` passed to the lexico_topo_sort fn
     let mut event_to_pl = HashMap::new();
-    // We need to know the creator in case of missing power levels. Given that it's the same for all
-    // the events in the room, we will just load it for the first event and reuse it.
-    let creator_lock = OnceLock::new();
-
     for event_id in graph.keys() {
-        let pl = get_power_level_for_sender(event_id.borrow(), rules, &creator_lock, &fetch_event)
+        let pl = get_power_level_for_sender(event_id.borrow(), rules, &fetch_event)
             .map_err(Error::AuthEvent)?;
         debug!(
             event_id = event_id.borrow().as_str(),
@@ -388,46 +381,43 @@ where
 fn get_power_level_for_sender<E: Event>(
     event_id: &EventId,
     rules: &AuthorizationRules,
-    creator_lock: &OnceLock<OwnedUserId>,
     fetch_event: impl Fn(&EventId) -> Option<E>,
 ) -> std::result::Result<Int, String> {
     let event = fetch_event(event_id);
     let mut room_create_event = None;
     let mut room_power_levels_event = None;
 
+    // Only the auth events of this event are used, so the result doesn't depend on the order in
+    // which the events are processed.
     for aid in event.as_ref().map(|pdu| pdu.auth_events()).into_iter().flatten() {
         if let Some(aev) = fetch_event(aid.borrow()) {
             if is_type_and_key(&aev, &TimelineEventType::RoomPowerLevels, "") {
                 room_power_levels_event = Some(RoomPowerLevelsEvent::new(aev));
-            } else if creator_lock.get().is_none()
-                && is_type_and_key(&aev, &TimelineEventType::RoomCreate, "")
-            {
+            } else if is_type_and_key(&aev, &TimelineEventType::RoomCreate, "") {
                 room_create_event = Some(RoomCreateEvent::new(aev));
             }
 
-            if room_power_levels_event.is_some()
-                && (creator_lock.get().is_some() || room_create_event.is_some())
-            {
+            if room_power_levels_event.is_some() && room_create_event.is_some() {
                 break;
             }
         }
     }
 
-    // TODO: Use OnceLock::try_or_get_init when it is stabilized.
-    let creator = if let Some(creator) = creator_lock.get() {
-        Some(creator)
-    } else if let Some(room_create_event) = room_create_event {
-        let creator = room_create_event.creator(rules)?;
-        Some(creator_lock.get_or_init(|| creator.into_owned()))
-    } else {
-        None
+    let Some(event) = event else {
+        return room_power_levels_event
+            .get_as_int_or_default(events::RoomPowerLevelsIntField::UsersDefault, rules);
     };
 
-    if let Some((event, creator)) = event.zip(creator) {
-        room_power_levels_event.user_power_level(event.sender(), creator, rules)
+    if let Some(room_power_levels_event) = room_power_levels_event {
+        // The creator is only needed when there is no `m.room.power_levels` event.
+        return room_power_levels_event.user_power_level(event.sender(), rules);
+    }
+
+    if let Some(room_create_event) = room_create_event {
+        let creator = room_create_event.creator(rules)?;
+        room_power_levels_event.user_power_level(event.sender(), &creator, rules)
     } else {
-        room_power_levels_event
-            .get_as_int_or_default(events::RoomPowerLevelsIntField::UsersDefault, rules)
+        Ok(events::RoomPowerLevelsIntField::UsersDefault.default_value())
     }
 }
 
